@@ -8,7 +8,7 @@ open St
 
 @[simp] theorem endError_uns_ustate (D : Desc) (s : St) : (endError D s .uns).ustate = .idle := by simp [endError, unsolicitedResetState]
 @[simp] theorem endOk_uns_ustate (D : Desc) (s : St) : (endOk D s .uns).ustate = .idle := by simp [endOk, unsolicitedResetState]
-@[simp] theorem startFlush_uns_ustate (s : St) (a : After) : (startFlush s .uns a).ustate = .flushWait ∧ (startFlush s .uns a).uwriteStateAfter = a.toU := by
+@[simp] theorem startFlush_uns_ustate (s : St) (a : After) : (startFlush s .uns a).ustate = .flushWait ∧ (startFlush s .uns a).uwriteStateAfter = a := by
   simp [startFlush]
 
 /-- states other than FLUSH_IO_WRITE that the unsolicited machine's helpers can produce -/
